@@ -1072,6 +1072,56 @@ def run(ctx):
                 nthrow += 1
                 ctx.violation('C13.E1', f.name, 'throwing-conversion:%s' % basename(e.get('name') or ''), f.where(e),
                               '%s throws on malformed input and ninja has no handler: `%s`' % (basename(e.get('name') or ''), (e.get('src') or '')[:60]))
+    # ... and a position handed to substr / erase / insert / replace / compare is not the raw result of a search: find*()
+    # answers npos when nothing was found, and those members throw std::out_of_range for a position beyond the end
+    FINDS = ('find', 'rfind', 'find_first_of', 'find_first_not_of', 'find_last_of', 'find_last_not_of')
+    POSFN = ('substr', 'erase', 'insert', 'replace', 'compare')
+
+    def raw_find(g, d, depth=0):
+        d0 = strip(d)
+        if not isinstance(d0, dict) or depth > 4:
+            return False
+        if d0.get('k') == 'call' and lastname(d0.get('name') or '').split('<')[0] in FINDS and (d0.get('name') or '').startswith('std::'):
+            return True
+        if d0.get('k') == 'var' and d0.get('vk') == 'local':
+            return any(raw_find(g, o, depth + 1) for o in origins(g, d0) if strip(o) is not d0)
+        return False
+
+    def pos_unchecked(g, e):
+        nm = e.get('name') or ''
+        if not (nm.startswith('std::basic_string') and lastname(nm).split('<')[0] in POSFN and e.get('args')):
+            return None
+        a0 = e['args'][0]
+        if 'iterator' in ((strip(a0) or {}).get('ty') or '') or not raw_find(g, a0):
+            return None
+        if strip(a0).get('k') != 'var':
+            return True         # the search result itself is the position: nothing can have looked at it
+        names = [strip(a0)['n']]
+
+        def about(a):
+            s_ = dstr(a)
+            return ('18446744073709551615' in s_ or 'npos' in s_ or '== -1' in s_) and (not names or any(n_ in s_ for n_ in names))
+        def bounded(a):
+            s_ = dstr(a)
+            return ('.size()' in s_ or '.length()' in s_) and any(n_ in s_ for n_ in names) and '<' in s_
+        return not (fact_holds(g.facts_at(e), about, False) or fact_holds(g.facts_at(e), about, True) or
+                    fact_holds(g.facts_at(e), bounded, True))
+    nsub = 0
+    for f in prog.functions.values():
+        if f.file.startswith('third_party'):
+            continue
+        for e in f.events('call'):
+            u = pos_unchecked(f, e)
+            if u is None:
+                continue
+            nsub += 1
+            ctx.check('C13.E1', not u, f.name, 'position-from-search-unchecked:%s' % lastname(e.get('name')), f.where(e),
+                      'the position given to %s is a search result that was compared with npos first: `%s`' % (lastname(e.get('name')), (e.get('src') or '')[:60]))
+    cu = [pos_unchecked(fx.fn('nvctl::SubstrOfFind'), e) for e in fx.fn('nvctl::SubstrOfFind').events('call')]
+    cc_ = [pos_unchecked(fx.fn('nvctl::SubstrOfFindChecked'), e) for e in fx.fn('nvctl::SubstrOfFindChecked').events('call')]
+    if True not in cu or True in cc_ or False not in cc_:
+        raise AnalysisBroken('E1 control failed: substr(find()) %s / checked %s' % (cu, cc_))
+    ctx.inst('C13.E1', 'fixtures/controls.cc', 'controls: nvctl::SubstrOfFind flagged, nvctl::SubstrOfFindChecked accepted; %d search-derived positions in ninja' % nsub)
     ctrl = [e for e in fx.fn('nvctl::ThrowingConversion').events('call') if throwing(e)]
     if len(ctrl) != 1:
         raise AnalysisBroken('E1 control failed')
